@@ -363,7 +363,7 @@ Section RoundTrip.
       verify_proof (tp_hl T) (tp_hm T) (mz_root T m1) pr (hash_of_z k) (hash_of_z vh) = true.
   Proof.
     intros Hp Hin. destruct m0_facts as (Hwf & Hh & _).
-    destruct (proof_of_member T m0 Hwf Hd'' p k e Hp Hin) as (pr & vh & A & B & C & D & _).
+    destruct (proof_of_member T m0 (mz_wf_in _ _ Hwf) Hd'' p k e Hp Hin) as (pr & vh & A & B & C & D & _).
     cbv zeta in A, C. rewrite Hh in A, C.
     destruct restored_observables as (_ & _ & _ & Hobs). destruct (Hobs Hd'' p) as (_ & _ & Hpr).
     exists pr, vh. rewrite Hpr. repeat split; auto.
